@@ -19,13 +19,16 @@ def prop(pid):
 
 # --------------------------------------------------------------------------- helpers
 
-def drive(out, family, extra=(), nounicode=False, name=None, timeout=1800):
+def drive(out, family, extra=(), nounicode=False, name=None, timeout=None):
     """Run a harness driver; returns the trace path.  A harness that aborts or
     hangs yields a violation for the case that was running."""
     wd = WORK / out.prop
     wd.mkdir(parents=True, exist_ok=True)
     trace = wd / f"{name or family}.ndjson"
     args = ["drive", family, "--out", trace, "--tier", out.tier, "--seed", out.seed] + list(extra)
+    if timeout is None:
+        # the slowest driver takes ~4 s (quick) / ~40 s (thorough); a run that takes 100x longer hangs
+        timeout = 2400 if out.tier == "thorough" else 400
     t0 = time.time()
     rc, err = core.run_sv(args, timeout=timeout, nounicode=nounicode)
     log(f"[sv] drive {family} rc={rc} {time.time()-t0:.1f}s {err.strip().splitlines()[-1] if err.strip() else ''}")
